@@ -476,7 +476,10 @@ silent("ok-c19-mapper-rename", "C19", U + "extend_schema.py",
 v("c14-unfix-cache-plain-dict", "C14", "NODE-KEY-IDENTITY", V + "rules/overlapping_fields_can_be_merged.py",
   "        self.cached_fields_and_fragment_spreads: FieldsAndFragmentSpreadsCache = (\n            RefMap()\n        )", "        self.cached_fields_and_fragment_spreads: dict = {}")
 v("c13-unfix-oneof-wrapped-parent", "C13", "WRAPPED-KIND-TEST", V + "rules/variables_in_allowed_position.py",
-  "            parent_type = get_nullable_type(usage.parent_type)", "            parent_type = usage.parent_type")
+  "            parent_type = get_named_type(usage.parent_type)", "            parent_type = usage.parent_type")
+v("c13-unfix-oneof-list-wrapped-parent", "C13", "WRAPPED-KIND-TEST", V + "rules/variables_in_allowed_position.py",
+  "            parent_type = get_named_type(usage.parent_type)", "            parent_type = get_nullable_type(usage.parent_type)",
+  extra_edits=[{"file": V + "rules/variables_in_allowed_position.py", "old": "    get_named_type,\n    is_input_object_type,", "new": "    get_nullable_type,\n    is_input_object_type,"}])
 v("c05-unfix-failure-allocates", "C05", "ID-LIFECYCLE", E + "incremental/incremental_publisher.py",
   "            group_id = self._ids.get(group)\n            if group_id is not None:\n                context.completed.append(\n                    CompletedResult(group_id, [ensure_graphql_error(event.error)])\n                )\n                del self._ids[group]",
   "            context.completed.append(\n                CompletedResult(\n                    self._ensure_id(group), [ensure_graphql_error(event.error)]\n                )\n            )\n            del self._ids[group]")
